@@ -121,6 +121,7 @@ type concState struct {
 	lastR  map[*Value][]access
 	atomVC map[*Value][]int
 	races  []string
+	pools  map[*Value][]Value
 	sleep  []transition
 }
 
@@ -134,7 +135,7 @@ func (in *Interp) concInit() {
 	main := &gor{id: 0, wake: make(chan struct{}, 1), exited: make(chan struct{}), name: "main"}
 	main.vc = []int{1}
 	in.conc = &concState{gors: []*gor{main}, cur: main, mutexVC: map[*Value][]int{}, onceSt: map[*Value]int{}, onceVC: map[*Value][]int{},
-		lastW: map[*Value]access{}, lastR: map[*Value][]access{}, atomVC: map[*Value][]int{}}
+		lastW: map[*Value]access{}, lastR: map[*Value][]access{}, atomVC: map[*Value][]int{}, pools: map[*Value][]Value{}}
 }
 
 // concShutdown releases every parked host goroutine at the end of a path and
@@ -196,7 +197,9 @@ func (g *gor) sees(a access) bool {
 // a second goroutine exists.
 func (in *Interp) raceRead(p *Value, fr *frame) {
 	cs := in.conc
-	if cs == nil || len(cs.gors) < 2 || p == nil || in.raceOff > 0 {
+	if cs == nil || len(cs.gors) < 2 || p == nil || in.raceOff > 0 || in.initDepth > 0 {
+		// package initialisation happens before everything else in a real
+		// program; here it runs lazily, in whichever goroutine comes first
 		return
 	}
 	g := cs.cur
@@ -215,7 +218,9 @@ func (in *Interp) raceRead(p *Value, fr *frame) {
 
 func (in *Interp) raceWrite(p *Value, fr *frame) {
 	cs := in.conc
-	if cs == nil || len(cs.gors) < 2 || p == nil || in.raceOff > 0 {
+	if cs == nil || len(cs.gors) < 2 || p == nil || in.raceOff > 0 || in.initDepth > 0 {
+		// package initialisation happens before everything else in a real
+		// program; here it runs lazily, in whichever goroutine comes first
 		return
 	}
 	g := cs.cur
@@ -1018,6 +1023,50 @@ func init() {
 			return false, true
 		}
 	}
+	// sync.Pool: Get hands out the item put back last (the most adversarial
+	// of the behaviours the documentation allows), New otherwise; Put/Get
+	// synchronise like the real pool.
+	intrinsics["(*sync.Pool).Put"] = func(in *Interp, fr *frame, a []Value) (Value, bool) {
+		if in.conc == nil {
+			in.concInit()
+		}
+		cs := in.conc
+		p := a[0].(*Value)
+		if x, ok := a[1].(Iface); ok && x.T == nil {
+			return nil, true
+		}
+		cs.pools[p] = append(cs.pools[p], a[1])
+		vc := cs.mutexVC[p]
+		cs.cur.release(&vc)
+		cs.mutexVC[p] = vc
+		return nil, true
+	}
+	intrinsics["(*sync.Pool).Get"] = func(in *Interp, fr *frame, a []Value) (Value, bool) {
+		if in.conc == nil {
+			in.concInit()
+		}
+		cs := in.conc
+		p := a[0].(*Value)
+		if l := cs.pools[p]; len(l) > 0 {
+			x := l[len(l)-1]
+			cs.pools[p] = l[:len(l)-1]
+			cs.cur.acquire(cs.mutexVC[p])
+			return x, true
+		}
+		st := (*p).(Struct)
+		newFn := st[len(st)-1]
+		switch f := newFn.(type) {
+		case *Closure:
+			if f != nil {
+				return in.call(fr, token.NoPos, f, nil), true
+			}
+		case *ssa.Function:
+			if f != nil {
+				return in.call(fr, token.NoPos, f, nil), true
+			}
+		}
+		return Iface{}, true
+	}
 	intrinsics[vrtPkg+".Terminates"] = func(in *Interp, fr *frame, a []Value) (Value, bool) {
 		return in.terminates(fr, a[0]), true
 	}
@@ -1028,6 +1077,7 @@ func init() {
 		in.events = append(in.events, a[0].(string))
 		return nil, true
 	}
+	intrinsics[vrtPkg+".SingleP"] = func(in *Interp, fr *frame, a []Value) (Value, bool) { return nil, true }
 	intrinsics[vrtPkg+".GoroutineBaseline"] = func(in *Interp, fr *frame, a []Value) (Value, bool) { return nil, true }
 	intrinsics[vrtPkg+".Races"] = func(in *Interp, fr *frame, a []Value) (Value, bool) {
 		if in.conc == nil {
